@@ -29,7 +29,7 @@ static void vp_open(void)
 
 static uint64_t vp_next(void)
 {
-    char line[128];
+    char line[8192];
     vp_open();
     for (;;) {
         if (!fgets(line, sizeof(line), vp_in)) {
@@ -39,8 +39,11 @@ static uint64_t vp_next(void)
             fflush(NULL);
             _Exit(78);
         }
-        if (line[0] == '#' || line[0] == '\n')
+        if (line[0] == '#' || line[0] == '\n') {
+            /* a comment line longer than the buffer continues in the next chunk(s) */
+            while (!strchr(line, '\n') && fgets(line, sizeof(line), vp_in)) {}
             continue;
+        }
         vp_nread++;
         return strtoull(line, NULL, 0);
     }
